@@ -15,7 +15,7 @@ PROPERTY = "C04"
 LEVEL = "exploration"
 NEED_EXT = True
 REQUIRED = ["rows.single", "rows.subset", "rows.permutation", "rows.repeat", "state.unchanged", "pickle",
-            "clone_with_fitted_parameters", "exception.balanced_predictions", "asan.criterion_copy"]
+            "clone_with_fitted_parameters", "exception.balanced_predictions", "asan.criterion_copy", "accessors.pure"]
 RULE = ("every registered class with row-wise methods x configurations x label sets x batches made of training rows, "
         "perturbed rows, far rows (buckets / cells / leaves unseen at training time), exact duplicates and a single "
         "row; non-trivial = batch with >= 2 distinct rows routed to different buckets or classes; distinct = distinct "
@@ -87,10 +87,13 @@ def label_variants(D):
     if isinstance(y, numpy.ndarray) and y.dtype.kind in "iu" and len(numpy.unique(y)) <= 3:
         table = {v: t for v, t in zip(sorted(numpy.unique(y).tolist()), (-1, 1, 5))}
         out.append(("labels -1/+1/5", dict(D, y=numpy.array([table[v] for v in y.tolist()]))))
+        out.append(("float labels -1./2./7.", dict(D, y=numpy.array([float(table[v]) * 2 + 1 if table[v] > 0 else -1.0
+                                                                     for v in y.tolist()]))))
     return out
 
 
 def run_rows(case, ctx):
+    from vrt.props.c01 import same_out
     from vrt import registry
     from vrt.props.c03 import state
     from mlinsights.mlmodel.sklearn_testing import clone_with_fitted_parameters
@@ -189,6 +192,24 @@ def run_rows(case, ctx):
                                       cfg=c2)
                     if len(numpy.unique(numpy.asarray(full).astype(str), axis=0)) >= 2:
                         ctx.nontriv(spec.name, vi, dname, lname, m)
+                # ---- reading a property / calling an accessor is an observation: it changes no later answer
+                try:
+                    o_before = spec.outputs(est, Q, list(spec.methods))
+                    g1 = spec.getters(est, Q)
+                    g2 = spec.getters(est, Q)
+                    o_after = spec.outputs(est, Q, list(spec.methods))
+                    if g1:
+                        ctx.hit("accessors.pure")
+                        badg = [g for g in g1 if g not in g2 or not same_out(g1[g], g2[g])]
+                        if badg:
+                            ctx.violation(K + "accessor/repeated-call-differs", "%s gives two different answers when "
+                                          "read twice" % badg[0], cfg=cfg)
+                        bad = [m for m in o_before if m not in o_after or not same_out(o_before[m], o_after[m])]
+                        if bad:
+                            ctx.violation(K + "accessor/changes-later-outputs", "%s differs before and after reading "
+                                          "%s" % (bad[0], ", ".join(sorted(g1))), cfg=cfg)
+                except Exception as e:
+                    ctx.violation(K + "accessor/raised/%s" % type(e).__name__, str(e)[:150], cfg=cfg)
                 # ---- persistence
                 ref = None
                 try:
@@ -201,8 +222,8 @@ def run_rows(case, ctx):
                     e2 = pickle.loads(pickle.dumps(est))
                     ctx.hit("pickle")
                     o2 = spec.outputs(e2, Q)
-                    bad = [m for m in ref if not all(row_equal(ref[m][i], o2[m][i], ref[m].dtype.kind in "iub")
-                                                     for i in range(n))]
+                    bad = [m for m in ref if not (same_out(ref[m], o2[m]) if m.startswith("getter:") else all(
+                        row_equal(ref[m][i], o2[m][i], ref[m].dtype.kind in "iub") for i in range(n)))]
                     if bad:
                         ctx.violation(K + "pickle/outputs-differ", "%s differs after a pickle round trip" % bad[0],
                                       cfg=cfg)
@@ -228,8 +249,8 @@ def run_rows(case, ctx):
                     ctx.hit("clone_with_fitted_parameters")
                     try:
                         o3 = spec.outputs(e3, Q)
-                        bad = [m for m in ref if not all(row_equal(ref[m][i], o3[m][i], ref[m].dtype.kind in "iub")
-                                                         for i in range(n))]
+                        bad = [m for m in ref if not (same_out(ref[m], o3[m]) if m.startswith("getter:") else all(
+                            row_equal(ref[m][i], o3[m][i], ref[m].dtype.kind in "iub") for i in range(n)))]
                         if bad:
                             ctx.violation(K + "clone_with_fitted/outputs-differ",
                                           "%s of the clone with fitted parameters differs from the original" % bad[0],
